@@ -74,7 +74,8 @@ enum
     POISON_PINF = 2,      // +inf
     POISON_NINF = 4,      // -inf
     POISON_WEIGHT = 8,    // finite value, map makes the weight non-finite / zero density
-    POISON_DIST = 16      // finite value returned, non-finite value handed to the projector
+    POISON_DIST = 16,     // finite value returned, non-finite value handed to the projector
+    POISON_HUGE = 32      // the largest finite value where the weight exceeds one: the product overflows
 };
 
 // operations of session scenarios
